@@ -6,7 +6,7 @@
 From Coq Require Import ZArith List Bool Lia.
 From Verif Require Import Base.Wrap Gen.GenConsts Gen.GenFrame Model.RelayItems Spec.RelayAccount
   Proofs.RelayAssocP Proofs.RelayCoreP Proofs.RelayInv9P Proofs.RelayTimerP Proofs.RelayThmP Proofs.RelaySilentP
-  Proofs.RelayCalmP.
+  Model.RelayCalm Proofs.RelayCalmP.
 Import ListNotations.
 Local Open Scope Z_scope.
 
